@@ -210,25 +210,25 @@ Lemma filter_length_le : forall (A : Type) (p : A -> bool) l, (length (filter p 
 Proof. intros A p l. induction l as [|x xs IH]; cbn; [lia|]. destruct (p x); cbn; lia. Qed.
 
 Lemma count_is_minus_mismatches : forall tag d d' f,
-  count_eval tag d = Some (d', f) -> (Z.of_nat (length d) < 2 ^ 53)%Z ->
+  count_eval tag d = (d', Some f) -> (Z.of_nat (length d) < 2 ^ 53)%Z ->
   exists v, f = [v] /\ fin v /\ RV v = - IZR (mismatches (cls_wrong tag) d).
 Proof.
   intros tag d d' f H L. unfold count_eval in H.
-  destruct (count_loop tag d F64.zero) as [[r err]|] eqn:E; [|discriminate].
-  injection H as _ <-. apply count_loop_counter in E. cbn [snd] in E.
+  destruct (count_loop tag d F64.zero) as [r [err|]] eqn:E; [|discriminate].
+  injection H as _ <-. pose proof (count_loop_counter tag d F64.zero err ltac:(rewrite E; reflexivity)) as Ec.
   pose proof (filter_length_le _ (cls_wrong tag) d) as FL.
   destruct (add_ones_exact (length (filter (cls_wrong tag) d)) F64.zero 0 eq_refl R_zero ltac:(lia) ltac:(lia)) as [F1 E1].
-  exists (F64.neg err). split; [reflexivity|]. rewrite fin_neg, R_neg, E. split; [exact F1|].
+  exists (F64.neg err). split; [reflexivity|]. rewrite fin_neg, R_neg, Ec. split; [exact F1|].
   rewrite E1. unfold mismatches. rewrite Z.add_0_l. reflexivity.
 Qed.
 
 Lemma count_zero_iff_all_right : forall tag d d' f,
-  count_eval tag d = Some (d', f) -> (Z.of_nat (length d) < 2 ^ 53)%Z ->
+  count_eval tag d = (d', Some f) -> (Z.of_nat (length d) < 2 ^ 53)%Z ->
   (f = [F64.neg F64.zero] <-> forall e, In e d -> cls_wrong tag e = false).
 Proof.
   intros tag d d' f H L. pose proof H as H0. unfold count_eval in H.
-  destruct (count_loop tag d F64.zero) as [[r err]|] eqn:E; [|discriminate].
-  injection H as _ <-. pose proof (count_loop_counter _ _ _ _ E) as Ec. cbn [snd] in Ec.
+  destruct (count_loop tag d F64.zero) as [r [err|]] eqn:E; [|discriminate].
+  injection H as _ <-. pose proof (count_loop_counter tag d F64.zero err ltac:(rewrite E; reflexivity)) as Ec.
   destruct (count_is_minus_mismatches tag d d' _ H0 L) as (v & Ev & Fv & Rv).
   injection Ev as Ev. split.
   - intro Z0. injection Z0 as Z0.
@@ -695,18 +695,18 @@ Proof.
   split; [exact Fr|]. rewrite opp_IZR in Br. lra.
 Qed.
 
-Lemma gaussian_loop_bounds : forall tag scale l k d r,
+Lemma gaussian_loop_bounds : forall tag scale l k d v,
   tag_ok tag -> fin scale -> 1 <= RV scale -> (0 <= k)%Z -> (k + Z.of_nat (length l) < 2 ^ 53)%Z ->
-  gauss_inv k d -> gaussian_loop tag scale l d = Some r -> gauss_inv (k + Z.of_nat (length l)) (snd r).
+  gauss_inv k d -> snd (gaussian_loop tag scale l d) = Some v -> gauss_inv (k + Z.of_nat (length l)) v.
 Proof.
-  intros tag scale l. induction l as [|e t IH]; intros k d r Ht Fsc Psc K0 K1 G H; cbn [gaussian_loop] in H.
-  - injection H as <-. cbn [snd length]. rewrite Z.add_0_r. exact G.
+  intros tag scale l. induction l as [|e t IH]; intros k d v Ht Fsc Psc K0 K1 G H; cbn [gaussian_loop] in H.
+  - injection H as <-. cbn [length]. rewrite Z.add_0_r. exact G.
   - cbn [length] in K1. rewrite Nat2Z.inj_succ in K1.
     destruct (label e) as [lab|]; [|discriminate].
-    destruct (gaussian_loop tag scale t _) as [[r' d']|] eqn:E; [|discriminate].
-    injection H as <-. cbn [snd length]. rewrite Nat2Z.inj_succ.
+    match type of H with context [gaussian_loop tag scale t ?x] => destruct (gaussian_loop tag scale t x) as [r' res] eqn:E end.
+    cbn [snd] in H. cbn [length]. rewrite Nat2Z.inj_succ.
     replace (k + Z.succ (Z.of_nat (length t)))%Z with ((k + 1) + Z.of_nat (length t))%Z by lia.
-    refine (IH (k + 1)%Z _ (r', d') Ht Fsc Psc ltac:(lia) ltac:(lia) _ E).
+    refine (IH (k + 1)%Z _ v Ht Fsc Psc ltac:(lia) ltac:(lia) _ ltac:(rewrite E; exact H)).
     destruct (fst (tag (ex_in e)) =? lab)%Z.
     + destruct (Ht (ex_in e)) as [Fs Bs]. apply gauss_step_right; try assumption; lia.
     + apply gauss_step_wrong; try assumption; lia.
@@ -721,15 +721,15 @@ Qed.
 
 Lemma gaussian_bounds : forall tag classes d d' f,
   tag_ok tag -> (2 <= classes <= 2 ^ 53)%Z -> (Z.of_nat (length d) < 2 ^ 53)%Z ->
-  gaussian_eval tag classes d = Some (d', f) ->
+  gaussian_eval tag classes d = (d', Some f) ->
   exists v, f = [v] /\ fin v /\ - IZR (Z.of_nat (length d)) <= RV v <= 0.
 Proof.
   intros tag classes d d' f Ht Hc Hl H. unfold gaussian_eval in H.
-  destruct (gaussian_loop tag (gaussian_scale classes) d F64.zero) as [[r v]|] eqn:E; [|discriminate].
+  destruct (gaussian_loop tag (gaussian_scale classes) d F64.zero) as [r [v|]] eqn:E; [|discriminate].
   injection H as _ <-. destruct (gaussian_scale_ok classes Hc) as [Fsc Psc].
   assert (G0 : gauss_inv 0 F64.zero) by (split; [reflexivity|rewrite R_zero; lra]).
-  pose proof (gaussian_loop_bounds tag _ d 0%Z F64.zero (r, v) Ht Fsc Psc ltac:(lia) ltac:(lia) G0 E) as G.
-  cbn [snd] in G. rewrite Z.add_0_l in G. exists v. split; [reflexivity|exact G].
+  pose proof (gaussian_loop_bounds tag _ d 0%Z F64.zero v Ht Fsc Psc ltac:(lia) ltac:(lia) G0 ltac:(rewrite E; reflexivity)) as G.
+  rewrite Z.add_0_l in G. exists v. split; [reflexivity|exact G].
 Qed.
 
 (* ---- single-row data: the fitness is exactly minus the error ------------ *)
